@@ -253,7 +253,12 @@ func runC42(w *World, r *Report) {
 				return
 			}
 
-			if n := namedOf(fa.X.Type()); n == nil || n.Obj() != unit.Obj() || fieldName(fa.X.Type(), fa.Field) != "s" {
+			// every member of a cache entry that can hold a symbol table (today: s)
+			if n := namedOf(fa.X.Type()); n == nil || n.Obj() != unit.Obj() {
+				return
+			}
+
+			if ft := namedOf(fieldTypeOf(fa)); ft == nil || ft.Obj().Name() != "SymbolTable" {
 				return
 			}
 
@@ -264,14 +269,14 @@ func runC42(w *World, r *Report) {
 						continue
 					}
 
-					key := fnKey(fn) + "|entry.s stored"
+					key := fnKey(fn) + "|entry." + fieldName(fa.X.Type(), fa.Field) + " stored"
 					if fn == update {
 						r.Discharge("R-C42-2", key, w.pos(x.Pos()), "the one place the saved table is set")
 					} else {
 						r.Violate("R-C42-2", key, w.pos(x.Pos()), "a second writer of the saved table")
 					}
 				case *ssa.UnOp:
-					key := fnKey(fn) + "|entry.s used"
+					key := fnKey(fn) + "|entry." + fieldName(fa.X.Type(), fa.Field) + " used"
 					if bad := c42SavedTableUse(x, merge); bad != "" {
 						r.Violate("R-C42-2", key, w.pos(x.Pos()), "the saved table (the first request's table) "+bad+": later requests would share it, not copy from it")
 					} else {
@@ -495,4 +500,13 @@ func c42SavedTableUse(load ssa.Value, merge *ssa.Function) string {
 	}
 
 	return rec(load)
+}
+
+// fieldTypeOf: the type of the member a FieldAddr selects.
+func fieldTypeOf(fa *ssa.FieldAddr) types.Type {
+	if p, ok := fa.Type().Underlying().(*types.Pointer); ok {
+		return p.Elem()
+	}
+
+	return fa.Type()
 }
